@@ -419,6 +419,8 @@ def nested_check(acc):
             continue
         if res.pause.node_name != path or res.pause.response_key != dotted or res.pause.output_param != "ans":
             acc.violation({"symptom": "nested-pause-identity"}, w, f"depth {depth}: pause {res.pause.node_name!r}/{res.pause.response_key!r} expected {path!r}/{dotted!r}")
+        if dict(res.pause.response_keys) != {"ans": dotted}:
+            acc.violation({"symptom": "nested-pause-identity", "what": "response_keys"}, w, f"depth {depth}: pause.response_keys = {dict(res.pause.response_keys)!r}, expected {{'ans': {dotted!r}}} (the key map of all outputs must agree with response_key and the node path)")
         shown = next((c.args for c in h.calls if c.nid == "ask"), None)
         if shown is None or res.pause.value != shown["a0"]:
             acc.violation({"symptom": "nested-pause-value"}, w, f"depth {depth}: pause.value does not equal the value shown to the handler")
